@@ -3,7 +3,7 @@
    an induction (divergence for EVERY budget), and a good configuration on which
    the hypotheses of the theorems are met. *)
 From Coq Require Import List ZArith Bool Lia.
-From Verif Require Import C04.Model C04.Spec C04.Proofs C05.Model C05.Proofs.
+From Verif Require Import C04.Model C04.Spec C04.Proofs C05.Model C05.Proofs C05.History.
 Import ListNotations.
 Open Scope Z_scope.
 
@@ -156,4 +156,67 @@ Proof.
   apply (rp_last wc_config Req 3 1 (wc_flow 3 3 1) [CN ep_stream_start (ep_p 3 0)]
                  (CN (ep_p 3 1) (ep_flow_start 1)) []);
     [reflexivity|reflexivity|apply refers_p2f].
+Qed.
+
+(* ---- F-C05l: a foreign root nothing consumed ----------------------------------
+
+   flow 1 ("A"): request  from flow 2 at end -> a1(1); a1 -hit-> stream;
+                          stream -> b1(5)      <- b1 came in with flow 2: not A's own,
+                                                  filed as foreign root, never consumed
+                 response from flow 2 at end -> a3(3); a3 -hit-> stream
+   flow 2 ("B"): request  stream -> b1(5); b1 -hit-> stream
+                 response stream -> stream     <- defines no entry: only the stale
+                                                  value lets A's response reference succeed *)
+Definition ep_flow_end (n : Z) : endpoint := EP None (Some (n, 1)) None.
+
+Definition wf_config : config :=
+  CF [FC 1 true [PD 1 false 1 [1]; PD 3 false 1 [1]]
+         [CN (ep_flow_end 2) (ep_p 1 0); CN (ep_p 1 1) ep_stream_end; CN ep_stream_start (ep_p 5 0)]
+         [CN (ep_flow_end 2) (ep_p 3 0); CN (ep_p 3 1) ep_stream_end];
+      FC 2 true [PD 5 false 1 [1]]
+         [CN ep_stream_start (ep_p 5 0); CN (ep_p 5 1) ep_stream_end]
+         [CN ep_stream_start ep_stream_end]]
+     false.
+
+Definition wf_flows : list flow :=
+  match load_stale wf_config with Accept fs => fs | _ => [] end.
+Definition wf_flow1 : flow := hd wa_flow wf_flows.
+
+(* ---- a processor that runs twice and answers differently ----------------------
+
+   request: stream -> 1; 1 -hit-> 2; 1 -hit-> 3; 2 -hit-> 4; 3 -hit-> 4;
+            4 -hit-> 5; 4 -miss-> 6
+   With [once_hit] (hit the first time a processor runs, miss afterwards) the
+   walk is 1 2 4 5 3 4 6: processor 4 runs twice and takes a different
+   connection the second time. *)
+Definition wh_req : dgraph :=
+  {| root := Some 1;
+     nodes := [(1, [(1, Some 2); (1, Some 3)]); (2, [(1, Some 4)]); (3, [(1, Some 4)]);
+               (4, [(1, Some 5); (2, Some 6)]); (5, []); (6, [])] |}.
+Definition wh_flow : flow := {| fname := 1; freq := wh_req; fres := {| root := None; nodes := [] |} |}.
+
+Definition wh_event (k c : Z) : event := {| e_flow := 1; e_key := k; e_dir := Req; e_cond := c |}.
+
+Lemma wh_trace : forall fuel, (5 <= fuel)%nat ->
+  hexec_flow fuel wh_flow Req None once_hit []
+  = (rev [wh_event 1 1; wh_event 2 1; wh_event 4 1; wh_event 5 1; wh_event 3 1; wh_event 4 2;
+          wh_event 6 1], Done).
+Proof.
+  intros fuel L. do 5 (destruct fuel as [|fuel]; [lia|]). reflexivity.
+Qed.
+
+(* no history-blind oracle produces that walk *)
+Lemma wh_not_blind : forall (beh : oracle) fuel,
+  fst (hexec_flow 5 wh_flow Req None once_hit [])
+  <> rev (tag wh_flow Req (fst (exec_flow_impl fuel wh_flow Req None beh))).
+Proof.
+  intros beh fuel E. rewrite wh_trace in E by lia. cbn [fst] in E.
+  apply (f_equal (@rev event)) in E. rewrite !rev_involutive in E.
+  assert (A : forall c, In (wh_event 4 c) (tag wh_flow Req (fst (exec_flow_impl fuel wh_flow Req None beh)))
+                        -> c = fst (beh 4 Req)).
+  { intros c I. unfold tag in I. apply in_map_iff in I. destruct I as [[k c'] [X I]].
+    inversion X. subst. apply flow_on_path in I. apply I. }
+  assert (A1 : 1 = fst (beh 4 Req)) by (apply A; rewrite <- E; cbn; tauto).
+  assert (A2 : 2 = fst (beh 4 Req)) by (apply A; rewrite <- E; cbn; tauto).
+  congruence.
 Qed.
